@@ -2,6 +2,8 @@ import PhononModel.Lemmas.DynMatSym
 import PhononModel.Lemmas.DynMatFourier
 import PhononModel.Lemmas.DynMatRot
 import PhononModel.Lemmas.DynMatRotTable
+import PhononModel.Lemmas.RecipOps
+import PhononModel.Lemmas.DynMatBatch
 import PhononModel.Lemmas.DynMatExample
 import Mathlib.Tactic.FinCases
 import Mathlib.Tactic.NormNum
@@ -94,6 +96,13 @@ theorem dynmat_scaling_eigen (T : DTables np nf ns nsv) (ph : Fin nsv → Cx R) 
     simp only [DM.toMatrix, Matrix.smul_apply, smul_eq_mul]
     exact dynmat_scaling T ph mm fc c t p.1 p.2 q.1 q.2
   rw [this, Matrix.smul_mulVec, hv, smul_smul]
+
+/-- … and every frequency `sign(λ)·sqrt|λ|·factor` by `sqrt(c/t)` (square root and eigen-decomposition are
+parameters; `c/t > 0`). -/
+theorem frequency_under_scaling {K : Type} [Field K] [LinearOrder K] [IsStrictOrderedRing K]
+    {sqrt : K → K} (h : IsSqrt sqrt) (factor lam c t : K) (hct : 0 < c / t) :
+    frequency sqrt factor (c / t * lam) = sqrt (c / t) * frequency sqrt factor lam :=
+  frequency_scaling h factor lam (c / t) hct
 
 /-! ### acoustic modes at the zone centre -/
 
@@ -215,6 +224,32 @@ theorem dynmat_rotation_char {V : Type} (T : DTables np nf ns nsv) (M : SymMaps 
   (dynmat_rotation T M hcert Q orth fc hfc _ (fun i j => by rw [hs, hs]) _ _
     (fun x => by rw [hρ, he])).2.2
 
+/-! ### the reciprocal operation list (`get_pointgroup_operations`) -/
+
+open RecipOps in
+/-- (7) **`reciprocal_operations` is the right set.**  For a rotation list passing the executable group certificate
+`isGroupOk` (evaluated on spglib's output for every crystal): the point-group list is the same set without
+repetition; the reciprocal list is `{rᵀ} ∪ (time reversal and no inversion: {−rᵀ})`; the set of transposes equals the
+set of inverse-transposes (which is how a rotation acts on q); the reciprocal list is closed under products; it
+contains `−1` iff time reversal is on or the point group contains the inversion. -/
+theorem reciprocal_ops_closed (rots : List M3) (hG : isGroupOk rots = true) (tr : Bool) :
+    ((pointgroupOps rots tr).1.Nodup ∧ ∀ x, x ∈ (pointgroupOps rots tr).1 ↔ x ∈ rots) ∧
+    (∀ x, x ∈ (pointgroupOps rots tr).2 ↔
+      (∃ r ∈ rots, x = M3.transpose r) ∨ (tr = true ∧ M3.negOne ∉ rots ∧ ∃ r ∈ rots, x = M3.neg (M3.transpose r))) ∧
+    (∀ x, (∃ r ∈ rots, x = M3.transpose r) ↔
+      (∃ r ∈ rots, ∃ r' : M3, M3.mul r r' = M3.one ∧ M3.mul r' r = M3.one ∧ x = M3.transpose r')) ∧
+    (∀ x y, x ∈ (pointgroupOps rots tr).2 → y ∈ (pointgroupOps rots tr).2 → M3.mul x y ∈ (pointgroupOps rots tr).2) ∧
+    (M3.negOne ∈ (pointgroupOps rots tr).2 ↔ (tr = true ∨ M3.negOne ∈ rots)) := by
+  have h := isGroupOk_sound rots hG
+  exact ⟨⟨collectUnique_nodup rots, mem_collectUnique rots⟩, mem_recip rots tr,
+    transposes_eq_inverse_transposes rots h, recip_closed rots h tr, negOne_mem_recip rots h tr⟩
+
+open RecipOps in
+/-- with time reversal, `q` and `−q` are always related by a listed operation -/
+theorem reciprocal_ops_neg_closed (rots : List M3) (hG : isGroupOk rots = true) (x : M3)
+    (hx : x ∈ (pointgroupOps rots true).2) : M3.neg x ∈ (pointgroupOps rots true).2 :=
+  recip_neg_closed rots (isGroupOk_sound rots hG) x hx
+
 /-! ### non-vacuity -/
 
 /-- one atom, supercell of two cells along a line (positions 0 and 1, supercell lattice 2ℤ):
@@ -256,6 +291,12 @@ def Mex : SymMaps 1 2 3 where
 example : svecsInvariantOk Tex Mex = true := by decide
 example : svecsInvariantOk Tex { Mex with sig := fun x => if x = 0 then 1 else if x = 1 then 0 else x } = false := by decide
 
+/-- the point group `2` (identity and a two-fold axis) passes the group certificate; with time reversal the
+reciprocal list has four elements, without it two -/
+def rotsEx : List RecipOps.M3 := [RecipOps.M3.one, fun i j => if i = j then (if i = 2 then 1 else -1) else 0]
+example : RecipOps.isGroupOk rotsEx = true := by decide
+example : (RecipOps.pointgroupOps rotsEx true).2.length = 4 ∧ (RecipOps.pointgroupOps rotsEx false).2.length = 2 := by decide
+
 /-- a unitary character (the zone-boundary point of the chain) and a symmetry operation (inversion) exist -/
 example : IsUnitaryChar Chain.eZB := Chain.eZB_spec.1
 example : Nonempty Chain.Lch.Symmetry := ⟨Chain.chainInversion⟩
@@ -270,9 +311,12 @@ end PhononModel.C03
 #print axioms PhononModel.C03.dynmat_scaling
 #print axioms PhononModel.C03.scaled_mass_factor
 #print axioms PhononModel.C03.dynmat_scaling_eigen
+#print axioms PhononModel.C03.frequency_under_scaling
 #print axioms PhononModel.C03.acoustic_kernel
 #print axioms PhononModel.C03.acoustic_vectors_independent
 #print axioms PhononModel.C03.dynmat_G_shift
 #print axioms PhononModel.C03.dynmat_rotation
 #print axioms PhononModel.C03.dynmat_rotation_char
 #print axioms PhononModel.C03.dynmat_rotation_fourier
+#print axioms PhononModel.C03.reciprocal_ops_closed
+#print axioms PhononModel.C03.reciprocal_ops_neg_closed
